@@ -112,8 +112,7 @@ def unqRunes : List Rune → Option Bytes
         else none
     else if c == 34 || c < 32 then none
     else if c < 128 then cons? [r.b0] (unqRunes rs)
-    else if r.invalid then cons? [0xEF, 0xBF, 0xBD] (unqRunes rs)
-    else cons? r.bytes (unqRunes rs)
+    else cons? (utf8enc r.cp) (unqRunes rs)   -- "coerce to well-formed UTF-8": `utf8.EncodeRune(b[w:], rr)`
 termination_by l => l.length
 decreasing_by all_goals (simp only [List.length_cons, List.length_drop]; omega)
 
